@@ -234,6 +234,8 @@ class PoolProp:
     def oracle(self, cfg, env, status, steps):
         """property judged on the implementation's run: None or (description, signature)"""
         faults = bool(cfg.begin_fault or cfg.item_fault)
+        if status.startswith("error:"):
+            return (f"a pool thread raised: {status}", "thread-error")
         if self.focus in ("result", "calls") and not faults:
             exp = env.expected()
             for k, (n, cs, ordered) in enumerate(cfg.calls):
